@@ -112,6 +112,18 @@ pub fn hist_input(rng: &mut Rng, fmt: Fmt, ctx: &Ctx, allow_invalid: bool) -> (V
         giant_len: 80,
         ..GenOpts::default()
     };
+    if !ctx.miri && rng.chance(1, 2500) {
+        // more than 2^16 tiny records that fit one buffer: record sets with more than 65535 entries
+        let n = 65_530 + rng.below(3000);
+        let mut out = Vec::with_capacity(n * 14);
+        for i in 0..n {
+            match fmt {
+                Fmt::Fasta => out.extend_from_slice(format!(">r{}_{}\nA\n", ctx.shard, i).as_bytes()),
+                Fmt::Fastq => out.extend_from_slice(format!("@r{}_{}\nA\n+\nI\n", ctx.shard, i).as_bytes()),
+            }
+        }
+        return (out, "huge-set");
+    }
     if !ctx.miri && rng.chance(1, 150) {
         // thousands of small records: batches and exact reads of more than 1000 records
         let n = 2000 + rng.below(6000);
@@ -211,6 +223,10 @@ fn add_stats(rep: &mut Report, out: &HOutcome) {
     rep.add("records_delivered", s.records_delivered as u64);
     rep.add("seeks_in_buffer", s.seeks_in_buffer as u64);
     rep.add("seeks_real", s.seeks_real as u64);
+    rep.max("largest_set_read", s.largest_set as u64);
+    if s.largest_set > 65535 {
+        rep.count("sets_read_with_more_than_65535_records");
+    }
     rep.add("seek_targets_in_buffered_window", s.seek_targets_in_window as u64);
     rep.add("seek_targets_outside_buffered_window", s.seek_targets_outside_window as u64);
     rep.add("positions_checked", s.positions_checked as u64);
@@ -293,6 +309,11 @@ pub fn c04(ctx: &Ctx, rep: &mut Report) {
                 cfg.chunking = Chunking::Fixed(4096);
             }
             rep.count("big_histories");
+        }
+        if family == "huge-set" {
+            cfg.cap = *rng.pick(&[1usize << 21, 1 << 20, 3 << 19]);
+            cfg.chunking = Chunking::Whole;
+            rep.count("histories_with_sets_beyond_65535_records");
         }
         gen::tame(&mut cfg, bytes.len());
         let ops = gen_ops(&mut rng, r.recs.len(), r.has_err(), &w, if ctx.miri { 10 } else if ctx.tier_thorough { 70 } else { 40 });
@@ -395,6 +416,11 @@ pub fn c05(ctx: &Ctx, rep: &mut Report) {
                 cfg.chunking = Chunking::Fixed(4096);
             }
             rep.count("big_histories");
+        }
+        if family == "huge-set" {
+            cfg.cap = *rng.pick(&[1usize << 21, 1 << 20, 3 << 19]);
+            cfg.chunking = Chunking::Whole;
+            rep.count("histories_with_sets_beyond_65535_records");
         }
         gen::tame(&mut cfg, bytes.len());
         let ops = gen_ops(&mut rng, r.recs.len(), r.has_err(), &w, if ctx.miri { 10 } else if ctx.tier_thorough { 70 } else { 40 });
